@@ -362,13 +362,44 @@ impl Engine for C10 {
                             let s = format!("\x1bP1;0;1!z{prefix}!{n};{unit};\x1b\\\x1b[1*z\x1b[?63;1n");
                             ctx.count("evaluations", 1);
                             ctx.count("transitions", s.len() as u64);
+                            let mut report: Option<String> = None;
                             for c in s.bytes() {
-                                if let Err(p) = catch(|| parser.print_char(&mut buf, 0, &mut caret, c as char)) {
-                                    ctx.panic(&p, json!({"macro": s}));
-                                    break;
+                                match catch(|| parser.print_char(&mut buf, 0, &mut caret, c as char)) {
+                                    Err(p) => {
+                                        ctx.panic(&p, json!({"macro": s}));
+                                        break;
+                                    }
+                                    Ok(Ok(icy_engine::CallbackAction::SendString(r))) => report = Some(r),
+                                    Ok(_) => {}
                                 }
                             }
                             check_buffer(&buf, "hex-macro-repeat-overflow", json!({"macro": s}), ctx);
+                            // the stored macro is observed through the checksum report: it is the prefix and as many WHOLE repetitions of the
+                            // unit as fit into the macro space of 32767 bytes - a valid string; a repetition cut inside a character is not
+                            let bytes_of = |hex: &str| -> Vec<u8> {
+                                let raw: Vec<u8> = (0..hex.len() / 2).map(|i| u8::from_str_radix(&hex[2 * i..2 * i + 2], 16).unwrap()).collect();
+                                raw.iter().map(|b| *b as char).collect::<String>().into_bytes()
+                            };
+                            let mut body = bytes_of(prefix);
+                            let u = bytes_of(unit);
+                            let mut k = 0;
+                            while k < n && body.len() + u.len() <= 0x7FFF {
+                                body.extend(&u);
+                                k += 1;
+                            }
+                            let mut crc = 0u16;
+                            for i in 0..64 {
+                                if i == 1 {
+                                    for b in &body {
+                                        crc = icy_engine::update_crc16(crc, *b);
+                                    }
+                                }
+                                crc = icy_engine::update_crc16(crc, 0);
+                            }
+                            let want = format!("\x1bP1!~{crc:04X}\x1b\\");
+                            if report.as_deref() != Some(want.as_str()) {
+                                ctx.violation("diff:macro-body:checksum-of-whole-repetitions", json!({"macro": s, "report": report, "expected_for_a_body_of_whole_repetitions": want, "body_len": body.len()}));
+                            }
                         }
                     }
                 }
